@@ -75,7 +75,7 @@ def _config(draw, cap=160):
                 events=draw(st.sampled_from([[], [], [0.37], [0.37, 0.62]])), user_jac=draw(st.booleans()),
                 fault=draw(st.sampled_from(["custom", "custom", "runtime", "zerodiv", "keyboard", "nested"])), cap=cap,
                 # a second fault, `second` user-callable calls into the resumed integrate() (at every third crash point)
-                second=draw(st.sampled_from([0, 0, 1, 2, 5, 17])))
+                second=draw(st.sampled_from([0, 0, 1, 2, 5, 17])), against_span=draw(st.sampled_from([False, False, True])))
 
 
 def parts(tier):
@@ -137,7 +137,10 @@ class Harness(object):
         self.a = None
         self.construct_error = None
         try:
-            a = de.OdeSystem(rhs, y0=y0, t=(case["t0"], case["tf"]), dense_output=case["dense"], dt=case["dt"], rtol=case["rtol"], atol=case["atol"])
+            # `against_span`: the system is declared over (t0, t0 - (tf - t0)) and every call is integrate(tf) - heading against
+            # the declared span (the direction of a call is that of its own target, not of the constructor's span)
+            declared_tf = case["tf"] if not case.get("against_span") else case["t0"] - (case["tf"] - case["t0"])
+            a = de.OdeSystem(rhs, y0=y0, t=(case["t0"], declared_tf), dense_output=case["dense"], dt=case["dt"], rtol=case["rtol"], atol=case["atol"])
             a.method = M.get(case["method"])
             self.a = a
         except BaseException as e:
@@ -150,7 +153,10 @@ class Harness(object):
         """returns (outcome, exception): 'ok' | 'failed' | 'keyboard' | 'other'"""
         import desolver as de
         try:
-            self.a.integrate(callback=self.cbs, events=self.events or None)
+            if self.case.get("against_span"):
+                self.a.integrate(self.case["tf"], callback=self.cbs, events=self.events or None)
+            else:
+                self.a.integrate(callback=self.cbs, events=self.events or None)
             return "ok", None
         except de.exception_types.FailedIntegration as e:
             return "failed", e
@@ -175,7 +181,7 @@ def check(case):
     fam = M.family(M.get(method))
     attrs = dict(method=method, family=fam, fault=case["fault"])
     labels = ["family:" + fam, "fault:" + case["fault"], "dense:on" if case["dense"] else "dense:off", "events:{}".format(len(case["events"])),
-              "callbacks:on" if case["callbacks"] else "callbacks:off", "backward" if case["tf"] < case["t0"] else "forward"]
+              "callbacks:on" if case["callbacks"] else "callbacks:off", "backward" if case["tf"] < case["t0"] else "forward"] + (["call_against_declared_span"] if case.get("against_span") else [])
     sig = fam
     tier_cap = case.get("cap", 160)
     # ---- reference run
